@@ -640,13 +640,19 @@ func (u *UlimitsConfig) DecodeMapstructure(value interface{}) error {
 		u.Hard = 0
 	case map[string]any:
 		u.Single = 0
-		soft, ok := v["soft"]
-		if ok {
-			u.Soft = soft.(int)
+		if soft, ok := v["soft"]; ok {
+			i, ok := soft.(int)
+			if !ok {
+				return fmt.Errorf("unexpected value type %T for ulimit soft limit", soft)
+			}
+			u.Soft = i
 		}
-		hard, ok := v["hard"]
-		if ok {
-			u.Hard = hard.(int)
+		if hard, ok := v["hard"]; ok {
+			i, ok := hard.(int)
+			if !ok {
+				return fmt.Errorf("unexpected value type %T for ulimit hard limit", hard)
+			}
+			u.Hard = i
 		}
 	default:
 		return fmt.Errorf("unexpected value type %T for ulimit", value)
